@@ -412,7 +412,8 @@ fn apply_parent_ready(
     if &new_hash == parent_hash {
         debug!("parent is ready, continuing with same parent");
     } else {
-        assert_ne!(&new_slot, parent_slot);
+        // NOTE: The new parent can be in the same slot as the one we optimistically built on:
+        //       the previous leader equivocated, we saw one block, the pool certified its sibling.
         debug!(
             "changed parent from {} in slot {} to {} in slot {}",
             parent_hash.short_hex(),
@@ -664,6 +665,19 @@ mod tests {
         let slice = Slice::from_parts(header, payload);
         let sk = signature::SecretKey::new(&mut rand::rng());
         assert!(RegularShredder::default().shred(&slice, &sk).is_ok());
+    }
+
+    #[tokio::test]
+    async fn parent_ready_for_sibling_of_optimistic_parent() {
+        let txs_receiver: UdpNetwork<Transaction, Transaction> = UdpNetwork::new_with_any_port();
+        let (mut payload, _) = produce_slice_payload(&txs_receiver, None, Duration::ZERO).await;
+
+        // we built on block A of the previous slot, the pool certifies its sibling B
+        let slot = Slot::windows().nth(10).unwrap();
+        let block_a = random_block_id(slot.prev());
+        let block_b = random_block_id(slot.prev());
+        apply_parent_ready(&mut payload, Ok(block_b.clone()), &block_a);
+        assert_eq!(payload.parent, Some(block_b));
     }
 
     #[tokio::test]
